@@ -178,6 +178,12 @@ def standard_plan(ctx, visitor, depths_quick=(8, 7, 6, 5, 5), depths_thorough=(1
         for sp in ("readonly", "tuple", "column", "npscalar"):
             tasks += list(tree_tasks(dict(N=N, r=2.0, box="B1", spell=sp), "A013", depths[N - 1] - 1, visitor, split=2))
             tasks += list(tree_tasks(dict(N=N, r=3.0, box="B1", spell=sp), "Am201", depths[N - 1] - 2, visitor, split=2, batch=3))
+    # the objective value left as a 0-d array in the holder; a read-only listener that walks the search information partly
+    for N in (((1, 2, 3) if th else (1, 2)) if extras else ()):
+        tasks += list(tree_tasks(dict(N=N, r=2.0, box=boxes[0], holder="zerod"), "A013", depths[N - 1] - 1, visitor, split=2))
+        tasks += list(tree_tasks(dict(N=N, r=1.5, box="B1", holder="zerod"), "Am201", depths[N - 1] - 2, visitor, split=2, batch=2))
+        tasks += list(tree_tasks(dict(N=N, r=2.0, box=boxes[0], peek=True), "A013", depths[N - 1] - 1, visitor, split=2))
+        tasks += list(tree_tasks(dict(N=N, r=3.0, box="B1", peek=True), "Am201", depths[N - 1] - 2, visitor, split=2, batch=3))
     if long_runs and extras:
         # long runs whose values decrease at every trial, are all negative, huge, or tiny
         for env in ("dec", "negquad", "big", "tiny"):
@@ -269,7 +275,7 @@ def describe(tasks):
                   (" holder=fresh" if c.get("holder") else "") + (f" other={c['other']}" if c.get("other") else "") + \
                   (f" itersLimit={c['itersLimit']}" if c.get("itersLimit") else "") + \
                   (f" density={c['density']}" if c.get("density") else "") + \
-                  (" constraints=2" if c.get("constraints") else "") + (f" spell={c['spell']}" if c.get("spell") else "") + (" evolvent probed" if c.get("probe") else "") + \
+                  (" constraints=2" if c.get("constraints") else "") + (f" spell={c['spell']}" if c.get("spell") else "") + (" peek" if c.get("peek") else "") + (" evolvent probed" if c.get("probe") else "") + \
                   (f" batch={t['batch']}" if t.get("batch", 1) != 1 else "")
             trees[key] = trees.get(key, 0) + len(t["alphabet"]) ** (t["depth"] - len(t["prefix"]))
         else:
